@@ -1062,7 +1062,21 @@ func c05_6(c *core.Ctx, p *core.Prog) {
 	// the drain may live in a helper called from the shutdown arm (`b.drainOnShutdown(); return`)
 	region, regionFirst := fn, first
 	var helperCall *ssa.Call
+	var outer []*ssa.Call // calls on the way from the arm to the helper that drains, outermost first (helperCall is outer[0])
 	if drain == nil {
+		hasDrain := func(h *ssa.Function) *ssa.Select {
+			var res *ssa.Select
+			core.EachInstr(h, func(j ssa.Instruction) {
+				s, ok := j.(*ssa.Select)
+				if !ok || s.Blocking || len(s.States) != 1 || s.States[0].Dir != types.RecvOnly {
+					return
+				}
+				if fa := core.LoadedField(s.States[0].Chan); fa != nil && core.FieldVar(fa) == m.itemChanField {
+					res = s
+				}
+			})
+			return res
+		}
 		core.EachInstr(fn, func(i ssa.Instruction) {
 			cl, ok := i.(*ssa.Call)
 			if !ok || helperCall != nil || !(cl.Block() == arm.To || core.Reachable(fn, first, cl)) {
@@ -1072,13 +1086,22 @@ func c05_6(c *core.Ctx, p *core.Prog) {
 			if h == nil || h.Pkg != fn.Pkg || len(h.Blocks) == 0 {
 				return
 			}
+			if s := hasDrain(h); s != nil {
+				drain, helperCall, outer = s, cl, []*ssa.Call{cl}
+				return
+			}
+			// one more level: `b.onShutdown()` calling `b.drainNewItems()`
 			core.EachInstr(h, func(j ssa.Instruction) {
-				s, ok := j.(*ssa.Select)
-				if !ok || s.Blocking || len(s.States) != 1 || s.States[0].Dir != types.RecvOnly {
+				c2, ok := j.(*ssa.Call)
+				if !ok || drain != nil {
 					return
 				}
-				if fa := core.LoadedField(s.States[0].Chan); fa != nil && core.FieldVar(fa) == m.itemChanField {
-					drain, helperCall = s, cl
+				h2 := c2.Call.StaticCallee()
+				if h2 == nil || h2.Pkg != fn.Pkg || len(h2.Blocks) == 0 {
+					return
+				}
+				if s := hasDrain(h2); s != nil {
+					drain, helperCall, outer = s, cl, []*ssa.Call{cl, c2}
 				}
 			})
 		})
@@ -1112,6 +1135,22 @@ func c05_6(c *core.Ctx, p *core.Prog) {
 				flushedInHelper = false
 			}
 		}
+		// intermediate level (`onShutdown`): after the draining helper returned, does every path flush before returning?
+		if !flushedInHelper && len(outer) == 2 {
+			mid := outer[1].Parent()
+			all := true
+			for _, r := range core.Returns(mid) {
+				if ok, _ := (core.PathQuery{Fn: mid, From: outer[1], To: r, CutEdges: countCut(mid), Avoid: isFlush}).Exists(); ok {
+					all = false
+				}
+			}
+			if all {
+				flushedInHelper = true
+			}
+			if ok, _ := (core.PathQuery{Fn: mid, ExitReturnOnly: true, Avoid: func(i ssa.Instruction) bool { return i == ssa.Instruction(outer[1]) }}).Exists(); ok {
+				msgs = append(msgs, "the shutdown helper can return without calling the drain helper")
+			}
+		}
 		nret := 0
 		for _, r := range core.Returns(fn) {
 			if !core.Reachable(fn, helperCall, r) {
@@ -1136,10 +1175,10 @@ func c05_6(c *core.Ctx, p *core.Prog) {
 		}
 		c.Check(len(msgs) == 0, "drain|return", p.Pos(drain.Pos()), core.FuncName(region), "every return after shutdown follows an empty-queue observation and a flush of a non-empty batch", strings.Join(msgs, "; "))
 		handled := true
-		if ok, _ := (core.PathQuery{Fn: region, From: recvEdge.To.Instrs[0], To: drain, Avoid: func(i ssa.Instruction) bool { return isCallTo(i, m.processFn) }}).Exists(); ok && !isCallTo(recvEdge.To.Instrs[0], m.processFn) {
+		if ok, _ := (core.PathQuery{Fn: region, From: recvEdge.To.Instrs[0], To: drain, Avoid: func(i ssa.Instruction) bool { return handlesItem(m, i) }}).Exists(); ok && !handlesItem(m, recvEdge.To.Instrs[0]) {
 			handled = false
 		}
-		if ok, _ := (core.PathQuery{Fn: region, From: recvEdge.To.Instrs[0], To: nil, Avoid: func(i ssa.Instruction) bool { return isCallTo(i, m.processFn) }}).Exists(); ok && !isCallTo(recvEdge.To.Instrs[0], m.processFn) {
+		if ok, _ := (core.PathQuery{Fn: region, From: recvEdge.To.Instrs[0], To: nil, Avoid: func(i ssa.Instruction) bool { return handlesItem(m, i) }}).Exists(); ok && !handlesItem(m, recvEdge.To.Instrs[0]) {
 			handled = false
 		}
 		c.Check(handled, "drain|handle", p.Pos(drain.Pos()), core.FuncName(region), "every request drained on shutdown is passed to the item handler", "a request received while draining on shutdown can bypass the item handler: its items are lost")
@@ -1246,7 +1285,7 @@ func c05_7(c *core.Ctx, p *core.Prog) {
 		}
 	}
 	first := arm.To.Instrs[0]
-	handles := func(i ssa.Instruction) bool { return isCallTo(i, m.processFn) }
+	handles := func(i ssa.Instruction) bool { return handlesItem(m, i) }
 	bad := false
 	if !handles(first) {
 		if ok, _ := (core.PathQuery{Fn: fn, From: first, To: m.mainSelect, Avoid: handles, CutEdges: cut}).Exists(); ok {
